@@ -82,6 +82,13 @@ package logx
 //@   requires r != nil
 //@   ensures [boundary-from-now] r.days > 0 && calls(Format) == 1 ==> calls(time.Now) == 1 && arg(Format, 0) == ret(Add) && arg(Add, 0) == ret(time.Now) && arg(Add, 1) == 0 - 3600000000000 * (24 * r.days)
 //@   ensures [layout] r.days > 0 && calls(Format) == 1 ==> arg(Format, 1) == fileTimeFormat
+// backups are ranked by NAME (the names carry the rotation time): when there are more than maxBackups, exactly the
+// len-maxBackups first names - the oldest - are reported, never one of the newest maxBackups
+//@   let globbed = ret(filepath.Glob, 0)
+//@   loop 1 invariant -1 <= rangeindex && files.arr == globbed.arr && files.off == globbed.off && len(files) == len(globbed)
+//@   loop 1 iteration-ensures [oldest-names-beyond-the-backup-limit] has(outdated, at_head(files[rangeindex + 1])) && rangeindex + 1 <= len(files) - r.maxBackups
+//@   ensures [ranked-by-name] ret(filepath.Glob, 1) == nil ==> calls(sort.Strings) == 1 && arg(sort.Strings, 0) == globbed
+//@   ensures [glob-error-reports-nothing] ret(filepath.Glob, 1) != nil ==> result == nil
 //@ func (*DailyRotateRule).OutdatedFiles
 //@   prop C19
 //@   opaque Errorf
